@@ -102,6 +102,14 @@ def snapshot_globals():
             _GLOBAL_SNAPSHOT.append((container, copy.copy(container)))
         except Exception:
             pass
+    def note_defaults(fn):
+        # mutable default arguments are process-wide state too (def f(x, acc=[]))
+        if not getattr(fn, '__module__', '').startswith('txtorcon'):
+            return
+        for dflt in list(fn.__defaults__ or ()) + list((fn.__kwdefaults__ or {}).values()):
+            if type(dflt) in (dict, list, set):
+                note(dflt)
+
     for name, mod in sorted(sys.modules.items()):
         if not (name == 'txtorcon' or name.startswith('txtorcon.')) or mod is None:
             continue
@@ -112,8 +120,12 @@ def snapshot_globals():
                 note(obj)
             elif type(obj) in _SCALARS:
                 _SCALAR_SNAPSHOT.append((mod, attr, obj))
+            elif _is_function(obj):
+                note_defaults(obj)
             elif isinstance(obj, type) and getattr(obj, '__module__', '').startswith('txtorcon'):
                 for cattr, cobj in sorted(vars(obj).items()):
+                    if _is_function(getattr(cobj, '__func__', cobj)):
+                        note_defaults(getattr(cobj, '__func__', cobj))
                     if cattr.startswith('__'):
                         continue
                     if type(cobj) in (dict, list, set):
@@ -121,6 +133,11 @@ def snapshot_globals():
                     elif type(cobj) in _SCALARS:
                         # counters, flags and limits kept on a class (or module): reset as well
                         _SCALAR_SNAPSHOT.append((obj, cattr, cobj))
+
+
+def _is_function(obj):
+    import types
+    return isinstance(obj, types.FunctionType)
 
 
 _SCALARS = (int, float, bool, str, bytes, type(None), tuple, frozenset)
